@@ -5,7 +5,7 @@ CONSTANTS
   Levels = {"machine", "reactor"}
   MaxOp = 2
   BatchIds = {1, 2}
-  MaxOff = 3
+  MaxOff = 2
   Epochs = {1}
   LEpochs = {1, 2}
   Leaders = {1, 2}
@@ -20,3 +20,4 @@ VIEW View
 INVARIANTS TypeOK C06_Order
 PROPERTIES C06_HWMonotone C06_QuorumReply C06_ReplyOnce C06_StaleFence C06_StaleMeta C06_AckGuard
 CHECK_DEADLOCK FALSE
+\* measured: 17,324 distinct / 1,135,660 generated states, depth 13, ~8 s with 8 workers on an idle machine
